@@ -986,6 +986,9 @@ def _trace_comprehension(fi: FuncInfo, e, is_sorted, sort_key, depth):
         k, gname, data, s, key = src
         carries = data and isinstance(elt, ast.Tuple) and len(elt.elts) == 3 and isinstance(elt.elts[2], ast.Name) and len(tnames) == 3 and elt.elts[2].id == tnames[2]
         return ("edges", gname, bool(carries) and not g.ifs, is_sorted or s, sort_key)
+    if src is not None and src[0] == "nodes" and isinstance(g.target, ast.Name) and isinstance(elt, ast.Tuple) and len(elt.elts) == 2 \
+            and isinstance(elt.elts[0], ast.Name) and elt.elts[0].id == g.target.id and isinstance(elt.elts[1], ast.Subscript):
+        src = None       # (n, <g>.nodes[n]) for n in <labels>: handled below
     if src is not None and src[0] == "nodes":
         k, gname, data, s, key = src
         carries = data and isinstance(elt, ast.Tuple) and len(elt.elts) == 2 and isinstance(elt.elts[1], ast.Name) and len(tnames) == 2 and elt.elts[1].id == tnames[1]
